@@ -329,6 +329,32 @@ type aCovert struct {
 	// resetOnAccept makes the listener answer the next connections with an immediate RST
 	resetOnAccept bool
 	resets        int
+	markers       map[string]chan struct{}
+}
+
+// Sync returns once every connection that was established to the listener before the call has been
+// accepted and recorded: it opens a marker connection (the accept queue is FIFO) and waits for it.
+// Returns false if the marker was not seen within the limit (harness trouble).
+func (c *aCovert) Sync(limit time.Duration) bool {
+	ch := make(chan struct{})
+	c.mu.Lock()
+	conn, err := net.DialTimeout("tcp", c.ln.Addr().String(), limit)
+	if err != nil {
+		c.mu.Unlock()
+		return false
+	}
+	if c.markers == nil {
+		c.markers = map[string]chan struct{}{}
+	}
+	c.markers[conn.LocalAddr().String()] = ch
+	c.mu.Unlock()
+	defer conn.Close()
+	select {
+	case <-ch:
+		return true
+	case <-time.After(limit):
+		return false
+	}
 }
 
 // ArmReset makes the covert reset every connection as soon as it is accepted.
@@ -358,6 +384,13 @@ func aNewCovert(tb testing.TB) *aCovert {
 				return
 			}
 			c.mu.Lock()
+			if ch, ok := c.markers[conn.RemoteAddr().String()]; ok {
+				delete(c.markers, conn.RemoteAddr().String())
+				close(ch)
+				conn.Close()
+				c.mu.Unlock()
+				continue
+			}
 			if c.resetOnAccept {
 				if tc, ok := conn.(*net.TCPConn); ok {
 					_ = tc.SetLinger(0)
